@@ -640,7 +640,6 @@ def pcontains : P (RawMesh (V3 Float) × List (RawOp (V3 Float)) × List (V3 Flo
 def trisOf (s : Mesh (V3 Float) (V3 Float)) : List (V3 Rat × V3 Rat × V3 Rat) :=
   ((allCoords s.vertices s.indices).getD []).map fun c => (q3 c.1, q3 c.2.1, q3 c.2.2)
 
-<<<<<<< HEAD
 /-! ## `histq3` / `histq2`: real queries on the final mesh of a history (oracle only, C20's panic / NaN clause)
 
 The harness replays the history of a `hist3` / `hist2` case and runs ray casts, point projections and ball queries on the
@@ -853,7 +852,7 @@ def oracle (o : List String) : String :=
         | none => if items.isEmpty then "skip no-queries" else "pass"
 
 end HQ
-=======
+
 /-! ## `bvhq3` / `bvhq2`: a QBVH-backed query (`project_local_point`) after a history, against brute force
 
 The real mesh projects every query point with a best-first traversal of its QBVH.  Whatever the history did to the tree
@@ -961,7 +960,6 @@ def boxscaleOracle (dim : Nat) (a : List Float) (o : List String) : String :=
     match bad with
     | some k => s!"fail axis {k}: the scaled box is not the bounding interval of the scaled vertices"
     | none => "pass"
->>>>>>> fu2-F11
 
 def handler (fn : String) : Option Handler :=
   match fn with
